@@ -263,6 +263,20 @@ impl ShellEnvironment {
         None
     }
 
+    /// Tries to retrieve a mutable reference to the variable with the given name,
+    /// looking only in the current (top-most) scope.
+    ///
+    /// # Arguments
+    ///
+    /// * `name` - The name of the variable to retrieve.
+    pub fn get_mut_in_current_scope<S: AsRef<str>>(
+        &mut self,
+        name: S,
+    ) -> Option<(EnvironmentScope, &mut ShellVariable)> {
+        let (scope_type, map) = self.scopes.last_mut()?;
+        map.get_mut(name.as_ref()).map(|var| (*scope_type, var))
+    }
+
     /// Tries to retrieve the string value of the variable with the given name in the
     /// environment.
     ///
